@@ -21,6 +21,12 @@ CLAIMED.update({
              note='Trusted: Coq kernel; stdlib real axioms; hand model Base/Num.v + differential tie; libm itself is not modelled.',
              ref='DESIGN.md section 7 C12'),
 })
+CLAIMED.update({
+ 'C19': dict(technique='Coq proof (axiom-free, induction over regenerations) that the modelled next()/with_seed stream equals the MT19937 reference sequence for every seed and position; arithmetic proof of f32_0_1 < 1 for all 2^32 raw values; constants and loop shapes regenerated from rng.rs; differential run on streams and raw values',
+             text='coq/Props/C19.v: the reference sequence satisfies the textbook recurrence (own literal constants); one regeneration of the three in-place loops maps block g to block g+624 (loop invariant: entries below k new, the rest old); C19_stream_is_reference: forall seed i, nth_output seed i = ref_output seed i; f32_0_1 numerator < 2^32 for every u < 2^32 (case analysis on the binade of u as f32 with ties-to-even), plus the witness that without the 128-value guard the top values give exactly 1.0. Tie: constants/shifts/loop bounds regenerated (gen/gen_rng.py), model streams compared word for word with the implementation for several seeds across >= 2 regenerations, f32_0_1 and i32_minmax compared exactly on raw values fed through the verif_from_state hook. i32_minmax/f32_minmax/f64_minmax ranges are checked by a bounds oracle on the implementation (exploration, not yet a theorem).',
+             note='Trusted: Coq kernel + vm_compute; translator gen_rng.py; the MT19937 reference as written in Rng/MTSpec.v; rustc u32->f32 conversion and f32 multiply being IEEE round-to-nearest-even (validated on boundary samples). The three min/max mappings are exploration-level.',
+             ref='DESIGN.md section 7 C19'),
+})
 NOT_YET = {}
 def main():
     props = [json.loads(l)['id'] for l in open('properties.jsonl')]
